@@ -76,7 +76,17 @@ type FailErr struct {
 	ID int
 }
 
-func (e *FailErr) Error() string { return fmt.Sprintf("fail fn=%d id=%d", e.Fn, e.ID) }
+func (e *FailErr) Error() string {
+	if e == nil {
+		return "fail (typed nil)"
+	}
+	return fmt.Sprintf("fail fn=%d id=%d", e.Fn, e.ID)
+}
+
+type errInfo struct {
+	id int
+	fn int
+}
 
 // Env holds the recording state of one execution of one scenario.
 type Env struct {
@@ -85,7 +95,8 @@ type Env struct {
 	NextErr int
 	Events  []interface{}
 	Phase   int
-	errs    map[error]int
+	errs    map[error]errInfo
+	self    map[int]*am.Func // built functions by index (for error values that need a Func)
 	Execs   int
 	funcs   map[*am.Func]int // identity -> scenario index
 	NConvs  int
@@ -93,7 +104,7 @@ type Env struct {
 }
 
 func NewEnv(nconvs int) *Env {
-	return &Env{Phase: 1, errs: map[error]int{}, funcs: map[*am.Func]int{}, NConvs: nconvs, nextGen: nconvs}
+	return &Env{Phase: 1, errs: map[error]errInfo{}, self: map[int]*am.Func{}, funcs: map[*am.Func]int{}, NConvs: nconvs, nextGen: nconvs}
 }
 
 func (e *Env) emit(ev interface{}) { e.Events = append(e.Events, ev) }
@@ -175,14 +186,29 @@ func (env *Env) Build(idx int, fs FuncSpec, extra ...am.Arg) (*am.Func, error) {
 	}
 	if err == nil && f != nil {
 		env.funcs[f] = idx
+		env.self[idx] = f
 	}
 	return f, err
 }
 
-func (env *Env) failure(idx int) (error, int) {
+// failure returns the error value of one failing execution and its identity
+// (-1 for the typed nil, which has no identity of its own).
+func (env *Env) failure(idx int, as string) (error, int) {
+	if as == "typednil" {
+		var e *FailErr
+		return e, -1
+	}
 	env.NextErr++
-	e := &FailErr{Fn: idx, ID: env.NextErr}
-	env.errs[e] = env.NextErr
+	var e error
+	switch as {
+	case "unsat":
+		e = &am.ErrArgumentUnsatisfied{Func: env.self[idx]}
+	case "wrapunsat":
+		e = fmt.Errorf("inner resolution failed: %w", &am.ErrArgumentUnsatisfied{Func: env.self[idx]})
+	default:
+		e = &FailErr{Fn: idx, ID: env.NextErr}
+	}
+	env.errs[e] = errInfo{env.NextErr, idx}
 	return e, env.NextErr
 }
 
@@ -255,7 +281,7 @@ func (env *Env) buildReflect(idx int, fs FuncSpec, opts []am.Arg) (*am.Func, err
 		}
 		if fs.HasErr {
 			if fs.Fails {
-				e, id := env.failure(idx)
+				e, id := env.failure(idx, fs.FailAs)
 				ex.Fails, ex.ErrID = true, id
 				res = append(res, reflect.ValueOf(&e).Elem())
 			} else {
@@ -314,7 +340,7 @@ func (env *Env) buildBuilt(idx int, fs FuncSpec, opts []am.Arg) (*am.Func, error
 		}
 		var ret error
 		if fs.Fails {
-			e, id := env.failure(idx)
+			e, id := env.failure(idx, fs.FailAs)
 			ex.Fails, ex.ErrID = true, id
 			ret = e
 		}
@@ -325,6 +351,13 @@ func (env *Env) buildBuilt(idx int, fs FuncSpec, opts []am.Arg) (*am.Func, error
 
 // apiArg renders a supplied value through one of the equivalent spellings of the API.
 func apiArg(l Label, v interface{}, variant int) am.Arg {
+	// value names are matched case-insensitively: spell the name in another case now and then
+	if l.Name != "" && variant >= 3 {
+		l.Name = strings.ToUpper(l.Name[:1]) + l.Name[1:]
+		if variant == 5 {
+			l.Name = strings.ToUpper(l.Name)
+		}
+	}
 	switch {
 	case l.Name != "" && l.Sub != "":
 		return am.NamedSubtype(l.Name, v, l.Sub)
